@@ -977,3 +977,56 @@ Qed.
 
 Lemma map_flat_map' {A B C} (f : B -> C) (g : A -> list B) l : map f (flat_map g l) = flat_map (fun x => map f (g x)) l.
 Proof. induction l as [|a l IH]; [reflexivity|]. cbn [flat_map]. rewrite map_app, IH. reflexivity. Qed.
+
+(** shape of the distributions after a successful update *)
+Lemma map_fst_combine {A B} (l : list A) (l' : list B) : length l = length l' -> map fst (combine l l') = l.
+Proof. revert l'. induction l as [|a l IH]; intros [|b l'] H; cbn in *; try discriminate; [reflexivity|]. f_equal. apply IH. lia. Qed.
+Lemma map_snd_combine {A B} (l : list A) (l' : list B) : length l = length l' -> map snd (combine l l') = l'.
+Proof. revert l'. induction l as [|a l IH]; intros [|b l'] H; cbn in *; try discriminate; [reflexivity|]. f_equal. apply IH. lia. Qed.
+Lemma unwrap_length l qs : unwrap l = Some qs -> length qs = length l.
+Proof. intros H. apply unwrap_Some in H. subst. unfold vals. rewrite map_length. reflexivity. Qed.
+
+Lemma dists_put_shape maxt ds : forall new ds', dists_put maxt ds new = Some ds' -> length new = length (dists_items ds) ->
+  dist_kw_names ds' = dist_kw_names ds /\ dist_keys_ok ds' = dist_keys_ok ds
+  /\ forallb (fun td => dist_valid maxt (snd td)) ds' = true.
+Proof.
+  induction ds as [|[t d] r IH]; intros new ds' H Hl.
+  - cbn in H. injection H as <-. repeat split.
+  - cbn [dists_put] in H. cbn [dists_items flat_map fst snd] in Hl. fold (dists_items r) in Hl.
+    rewrite app_length, pre_length in Hl.
+    destruct (dist_put maxt d (firstn (length (dist_local d)) new)) as [d'|] eqn:Ed; [|discriminate].
+    destruct (dists_put maxt r (skipn (length (dist_local d)) new)) as [r'|] eqn:Er; [|discriminate].
+    injection H as <-. destruct (IH _ _ Er) as (H1 & H2 & H3); [rewrite skipn_length; lia|].
+    unfold dist_kw_names, dist_keys_ok in *. cbn [flat_map forallb fst snd]. rewrite H1, H2, H3.
+    destruct d as [p|f kws]; cbn [dist_put dist_local] in Ed.
+    + injection Ed as <-. repeat split.
+    + destruct (unwrap _) as [qs|] eqn:Eu; [|discriminate].
+      destruct (fam_weights f maxt (combine (map fst kws) qs)) eqn:Ef; [|discriminate]. injection Ed as <-.
+      assert (Hq : length (map fst kws) = length qs).
+      { apply unwrap_length in Eu. cbn [dist_local] in Hl. rewrite map_length in Hl.
+        rewrite firstn_length, !map_length in Eu. rewrite map_length. lia. }
+      cbn [dist_valid]. rewrite Ef, (map_fst_combine _ _ Hq). repeat split.
+Qed.
+
+(** range of the edges after a successful update *)
+Definition edge_vals_ok (e : edge) : bool := in_unit (e_spread e) && in_unit (e_micro e).
+Lemma edge_put_vals_ok tri e qs : edge_vals_ok e = true -> forallb in_unit qs = true -> edge_vals_ok (edge_put tri e qs) = true.
+Proof.
+  unfold edge_vals_ok. intros He Hq. apply andb_true_iff in He. destruct He as [H1 H2].
+  destruct qs as [|a [|b [|c qs]]]; cbn [edge_put with_spread with_micro e_spread e_micro forallb] in *;
+    rewrite ?andb_true_iff in *; intuition.
+Qed.
+Lemma forallb_firstn {A} (f : A -> bool) n l : forallb f l = true -> forallb f (firstn n l) = true.
+Proof. revert l. induction n as [|n IH]; intros [|a l]; cbn; try reflexivity. rewrite !andb_true_iff. intros [H1 H2]. auto. Qed.
+Lemma forallb_skipn {A} (f : A -> bool) n l : forallb f l = true -> forallb f (skipn n l) = true.
+Proof. revert l. induction n as [|n IH]; intros [|a l]; cbn; try reflexivity; try tauto. rewrite !andb_true_iff. intros [H1 H2]. auto. Qed.
+Lemma edges_put_vals_ok tri sel es : forall qs, forallb edge_vals_ok es = true -> forallb in_unit qs = true ->
+  forallb edge_vals_ok (edges_put tri sel es qs) = true.
+Proof.
+  induction es as [|e r IH]; intros qs He Hq; [reflexivity|]. cbn [edges_put forallb] in *.
+  apply andb_true_iff in He. destruct He as [H1 H2]. destruct (sel e); cbn [forallb]; apply andb_true_iff; split.
+  - apply edge_put_vals_ok; [exact H1 | apply forallb_firstn, Hq].
+  - apply IH; [exact H2 | apply forallb_skipn, Hq].
+  - exact H1.
+  - apply IH; assumption.
+Qed.
